@@ -234,7 +234,9 @@ class SigmaString(SigmaType):
                 if e_len > start:
                     # else:
                     if end < e_len:  # end lies within this string part
-                        return self.__class__(e[start : cast(int, end)])
+                        part = self.__class__()
+                        part.s = [e[start : cast(int, end)]]  # plain characters, must not be parsed again
+                        return part
                     else:  # end lies behind the current string part
                         result.append(e[start:])
                         # end -= start
@@ -586,7 +588,11 @@ class SigmaString(SigmaType):
                     # Only escaping needed, process character-by-character only if necessary
                     if any(c in escaped_chars for c in part):
                         for c in part:
-                            if c in escaped_chars and escape_char is not None:
+                            if c in escaped_chars:
+                                if escape_char is None:
+                                    raise SigmaValueError(
+                                        f"Character '{c}' can't be represented in the query because no escape character is defined"
+                                    )
                                 result.append(escape_char)
                             result.append(c)
                     else:
@@ -596,7 +602,11 @@ class SigmaString(SigmaType):
                     for c in part:
                         if c in filter_set:
                             continue
-                        if c in escaped_chars and escape_char is not None:
+                        if c in escaped_chars:
+                            if escape_char is None:
+                                raise SigmaValueError(
+                                    f"Character '{c}' can't be represented in the query because no escape character is defined"
+                                )
                             result.append(escape_char)
                         result.append(c)
             elif isinstance(part, SpecialChars):  # special handling for special characters
